@@ -8,6 +8,7 @@ import (
 	"encoding/json"
 	"fmt"
 	"os"
+	"runtime"
 	"strings"
 	"sync"
 	"time"
@@ -38,8 +39,19 @@ type cwGate struct {
 
 type cwArrival struct {
 	kind    string // "enter" | "write"
-	marker  byte
+	gid     string // goroutine that arrived
 	release chan struct{}
+}
+
+// goid returns the id of the calling goroutine (from its stack header "goroutine N [running]:").
+func goid() string {
+	var buf [64]byte
+	n := runtime.Stack(buf[:], false)
+	f := strings.Fields(string(buf[:n]))
+	if len(f) >= 2 {
+		return f[1]
+	}
+	return "?"
 }
 
 func init() {
@@ -52,7 +64,7 @@ func init() {
 			return
 		}
 		rel := make(chan struct{})
-		g.arrivals <- cwArrival{kind: "enter", release: rel}
+		g.arrivals <- cwArrival{kind: "enter", gid: goid(), release: rel}
 		<-rel
 	}
 	hap.VerifWriteGate = func(con *hap.Connection, sealed []byte) {
@@ -63,7 +75,7 @@ func init() {
 			return
 		}
 		rel := make(chan struct{})
-		g.arrivals <- cwArrival{kind: "write", release: rel}
+		g.arrivals <- cwArrival{kind: "write", gid: goid(), release: rel}
 		<-rel
 	}
 }
@@ -177,10 +189,11 @@ func runSchedule(b Beh, seed int64) (J, error) {
 		}
 		payloads[m] = cwPayload(m, frames)
 	}
-	// Writers are started one at a time so that each enter-gate arrival is attributable.
+	// Writers are started one at a time; every gate arrival carries the goroutine id of its writer.
 	enterRel := map[string]chan struct{}{}
 	writeRel := map[string]chan struct{}{}
 	done := map[string]chan struct{}{}
+	byGid := map[string]string{}
 	var wg sync.WaitGroup
 	for _, w := range writers {
 		d := make(chan struct{})
@@ -197,65 +210,90 @@ func runSchedule(b Beh, seed int64) (J, error) {
 				return nil, fmt.Errorf("case %d: unexpected gate arrival %s", b.ID, a.kind)
 			}
 			enterRel[w] = a.release
+			byGid[a.gid] = w
 		case <-time.After(3 * time.Second):
 			return nil, fmt.Errorf("case %d: writer %s did not reach EncryptedWrite (connection not encrypted?)", b.ID, w)
 		}
 	}
+	const patience = 60 * time.Millisecond
+	isDone := func(w string) bool {
+		select {
+		case <-done[w]:
+			return true
+		default:
+			return false
+		}
+	}
+	// park records an arrival at the gate before the socket write; arrivals of `auto` are let through at once
+	park := func(a cwArrival, auto string) {
+		w := byGid[a.gid]
+		if w == auto || w == "" {
+			close(a.release)
+			return
+		}
+		if old, ok := writeRel[w]; ok {
+			close(old)
+		}
+		writeRel[w] = a.release
+	}
 	realised := true
-	released := map[string]bool{}
 	for _, s := range steps {
 		switch s.A {
 		case "Begin":
 			close(enterRel[s.W])
-			released[s.W] = true
 			// the writer now seals; it reaches the write gate unless a lock held by a parked writer stops it
-			select {
-			case a := <-g.arrivals:
-				writeRel[s.W] = a.release
-			case <-time.After(60 * time.Millisecond):
-				realised = false // blocked by mutual exclusion: the adversarial order cannot be forced (the good outcome)
+			deadline := time.After(patience)
+			arrived := false
+			for !arrived {
+				select {
+				case a := <-g.arrivals:
+					park(a, "")
+					arrived = byGid[a.gid] == s.W
+				case <-deadline:
+					realised = false // held back by mutual exclusion: the adversarial order cannot be forced (the good outcome)
+					arrived = true
+				}
 			}
 		case "SockWrite":
-			if rel, ok := writeRel[s.W]; ok {
-				close(rel)
-				delete(writeRel, s.W)
-				<-done[s.W]
-				// a writer that was blocked on the lock may arrive at its write gate now
-				for w2 := range released {
-					if _, parked := writeRel[w2]; !parked {
-						select {
-						case <-done[w2]:
-						default:
-							select {
-							case a := <-g.arrivals:
-								writeRel[w2] = a.release
-							case <-time.After(60 * time.Millisecond):
-							}
-						}
-					}
-				}
-			} else {
+			rel, ok := writeRel[s.W]
+			if !ok {
 				realised = false
+				continue
 			}
+			close(rel)
+			delete(writeRel, s.W)
+			// let this writer complete (further gate arrivals of it pass), park others that get going meanwhile
+			deadline := time.After(4 * patience)
+			for !isDone(s.W) {
+				select {
+				case a := <-g.arrivals:
+					park(a, s.W)
+				case <-done[s.W]:
+				case <-deadline:
+					goto next
+				}
+			}
+		next:
 		}
 	}
-	// let everything that is still parked finish, in arrival order
+	// the schedule is over: release whatever is parked and let every further arrival through
 	for w, rel := range writeRel {
 		close(rel)
 		delete(writeRel, w)
 	}
 	fin := make(chan struct{})
 	go func() { wg.Wait(); close(fin) }()
-	for {
+	stuck := false
+	for running := true; running; {
 		select {
 		case a := <-g.arrivals:
 			close(a.release)
-			continue
 		case <-fin:
+			running = false
 		case <-time.After(5 * time.Second):
-			return nil, fmt.Errorf("case %d: writers did not finish", b.ID)
+			stuck = true
+			running = false
 		}
-		break
 	}
 	sc.mu.Lock()
 	captured := append([]byte{}, sc.written.Bytes()...)
@@ -265,7 +303,11 @@ func runSchedule(b Beh, seed int64) (J, error) {
 	for _, s := range steps {
 		order = append(order, s.A+":"+s.W)
 	}
-	return J{"ev": "sched", "case": b.ID, "i": len(steps) - 1, "order": order, "realised": realised, "ctrs": ctrs, "owners": owners, "intact": intact, "races": 0}, nil
+	if stuck {
+		ctrs = append(ctrs, -1) // writers that never finish do not deliver their payload
+		intact = false
+	}
+	return J{"ev": "sched", "case": b.ID, "i": len(steps) - 1, "order": order, "realised": realised, "stuck": stuck, "ctrs": ctrs, "owners": owners, "intact": intact, "races": 0}, nil
 }
 
 // stress: ungated concurrent writers (response, notifications, keep-alive sized payloads); the -race build reports data races.
